@@ -39,6 +39,15 @@ BAD = [
 ]
 
 
+def rand_int(rng):
+    """an integer near a boundary or a random 56..130-bit value (thorough tier variety)."""
+    r = rng.random()
+    if r < 0.6:
+        return rng.choice(BOUNDARY)
+    v = rng.getrandbits(rng.choice([56, 62, 63, 64, 65, 100, 130]))
+    return v if rng.random() < 0.5 else -v
+
+
 def boundary_ints():
     out = []
     for b in (0, P55, -P55, P63, -P63, P64, -P64, 2 ** 31, -2 ** 31, 2 ** 70):
@@ -175,6 +184,8 @@ def canon_impl(res, tuple_of):
         # a resource error through run_query arrives as a ball that is the goal itself
         return "err res_memory" if res.startswith("exception('catch'(") else "raw:" + res
     items = res.split(" ;; ")
+    if items == ["false", "..."]:       # answer limit 1: the harness counts `false` as an item
+        return "false"
     out = []
     for k, it in enumerate(items):
         if it == "...":
@@ -370,8 +381,16 @@ def gen_cases(rng, tier):
         small_triples = rng.sample(small_triples, 500)
     for l, u, x in small_triples:
         cases.append(mk_between(cid(), 16, I(l), I(u), V if x is None else I(x)))
-    for _ in range(2000 if thorough else 350):
-        base = rng.choice(BOUNDARY)
+    for _ in range(2000 if thorough else 60):     # answer limit below the number of answers
+        l = rng.choice(SMALL + BOUNDARY)
+        cases.append(mk_between(cid(), rng.choice([1, 2, 3, 5]), I(l), I(l + rng.choice([0, 1, 2, 4, 6, 9])), V))
+    for a in ([V] + [I(v) for v in (-1, 0, 3, P64)]):          # unbound bounds: every combination
+        for b in ([V] + [I(v) for v in (-1, 0, 3, P64)]):
+            for c in ([V] + [I(v) for v in (0, 3)] + [B(0), B(3)]):
+                if a[0] == 'v' or b[0] == 'v':
+                    cases.append(mk_between(cid(), 8, a, b, c))
+    for _ in range(12000 if thorough else 350):
+        base = rand_int(rng) if thorough else rng.choice(BOUNDARY)
         span = rng.choice([-2, -1, 0, 1, 2, 3, 5, 9])
         l, u = base, base + span
         r = rng.random()
@@ -380,12 +399,12 @@ def gen_cases(rng, tier):
         else:
             x = I(l + rng.choice([-2, -1, 0, 1, span - 1, span, span + 1, span + 2]))
         cases.append(mk_between(cid(), 16, I(l), I(u), x))
-    for _ in range(400 if thorough else 80):     # upper bound out of reach: first 8 answers
+    for _ in range(1500 if thorough else 80):     # upper bound out of reach: first 8 answers
         l = rng.choice(BOUNDARY + SMALL)
         u = l + rng.choice([P64, 2 ** 70, P55, 10 ** 30, 1000])
         cases.append(mk_between(cid(), 8, I(l), I(u), V))
     argpool = [V] + [I(v) for v in (-1, 0, 2, P64, -P64)] + [B(k) for k in range(len(BAD))]
-    for _ in range(1500 if thorough else 300):   # ill-typed / unbound arguments
+    for _ in range(6000 if thorough else 300):   # ill-typed / unbound arguments
         a = [rng.choice(argpool) for _ in range(3)]
         if all(x[0] == 'i' for x in a[:2]) and a[2][0] != 'b':
             a[rng.randrange(2)] = rng.choice([V] + [B(k) for k in range(len(BAD))])
@@ -398,8 +417,8 @@ def gen_cases(rng, tier):
         pairs = rng.sample(pairs, 120)
     for a, b in pairs:
         cases.append(mk_succ(cid(), 4, a, b))
-    for _ in range(1500 if thorough else 250):
-        i = rng.choice(BOUNDARY)
+    for _ in range(8000 if thorough else 250):
+        i = rand_int(rng) if thorough else rng.choice(BOUNDARY)
         r = rng.random()
         if r < 0.3:
             a, b = I(i), V
@@ -433,11 +452,11 @@ def gen_cases(rng, tier):
     for l, u in (lu if thorough else rng.sample(lu, 60)):
         cases.append(mk_numlist3(cid(), 4, I(l), I(u), None))
         cases.append(mk_numlist3(cid(), 4, I(l), I(u), perturb(range(l, u + 1))))
-    for _ in range(800 if thorough else 120):
-        l = rng.choice(BOUNDARY)
+    for _ in range(5000 if thorough else 120):
+        l = rand_int(rng) if thorough else rng.choice(BOUNDARY)
         u = l + rng.choice([-1, 0, 1, 2, 4, 7])
         cases.append(mk_numlist3(cid(), 4, I(l), I(u), None if rng.random() < 0.5 else perturb(range(l, u + 1))))
-    for _ in range(300 if thorough else 60):
+    for _ in range(1500 if thorough else 60):
         a = [rng.choice(argpool), rng.choice(argpool)]
         if all(x[0] != 'b' for x in a):
             a[rng.randrange(2)] = B(rng.randrange(len(BAD)))
@@ -467,11 +486,13 @@ def gen_cases(rng, tier):
     combos = [(k, t, nv) for (k, t) in shapes for nv in nvals]
     for k, t, nv in (combos if thorough else rng.sample(combos, 150)):
         cases.append(mk_length(cid(), 8, k, t, nv, elem_vars=rng.random() < 0.3))
-    for _ in range(1500 if thorough else 300):
+    for k, t in shapes:                                        # unbound length: every shape
+        cases.append(mk_length(cid(), rng.choice([1, 3, 8]), k, t, V, elem_vars=rng.random() < 0.5))
+    for _ in range(10000 if thorough else 300):
         k, t = rng.choice(shapes)
         r = rng.random()
         if r < 0.6:
-            v = rng.choice(BOUNDARY)
+            v = rand_int(rng) if thorough else rng.choice(BOUNDARY)
             if t in ("var", "same") and 64 < v - k < P55 - 8:
                 v = rng.choice([P55, P63, P64, -P64, -P63 - 1])
             nv = I(v)
@@ -535,10 +556,26 @@ def run(ctx):
         i2, m2 = diff.run_cases(hang_cases, impl_env={"SV_TIMEOUT_MS": "1500"})
         impl.update(i2)
         model.update(m2)
+    # confirmation pass: every case whose first run does not match is run again, sequentially, on a
+    # fresh harness process (hang probes with a longer limit); only a mismatch that persists is
+    # reported (a starved worker on a loaded machine must not become a false alarm)
+    retry, retry_hang = [], []
+    for c in cases + hang_cases:
+        iv = canon_impl(impl.get(c["id"]), c["_tup"])
+        if not (iv == canon_model(model.get(c["id"])) == canon_model(model.get("s" + c["id"]))):
+            (retry_hang if c.get("hang_probe") else retry).append(c)
+    reruns = len(retry) + len(retry_hang)
+    if retry:
+        i3, _ = diff.run_cases([{"impl": c["impl"]} for c in retry], parallel=False)
+        impl.update(i3)
+    if retry_hang:
+        i3, _ = diff.run_cases([{"impl": c["impl"]} for c in retry_hang], impl_env={"SV_TIMEOUT_MS": "5000"})
+        impl.update(i3)
     findings, agree = [], 0
     distinct = set()
     by_pred, err_kinds, modes = {}, {}, {}
     hangs = 0
+    fixed_seen = 0
     allc = cases + hang_cases
     for c in allc:
         i = c["id"]
@@ -559,6 +596,11 @@ def run(ctx):
         if iv == mv == sv:
             agree += 1
             continue
+        if iv == sv and c.get("cls"):
+            # a class in which the mechanism model mirrors a recorded defect of the pinned code
+            # (C49-1, C49-2): the implementation meets the specification, i.e. it has been fixed
+            fixed_seen += 1
+            continue
         sig = {"family": "intrel", "pred": c["pred"], "mode": c["mode"], "cls": c.get("cls", "other"),
                "goal": c["goal"], "n": str(c["n"]), "impl": iv[:200], "spec": sv[:200], "model": mv[:200]}
         if iv != sv:
@@ -571,6 +613,12 @@ def run(ctx):
                 "disagreement", sig,
                 "mechanism model differs from implementation and specification (model defect or changed mechanism)",
                 strip(c)))
+    # unexpected findings first: the orchestration reports at most 12 distinct signatures
+    findings.sort(key=lambda f: (f.sig["cls"] != "other", f.kind != "violation"))
+    fclasses = {}
+    for f in findings:
+        key = "%s/%s/%s" % (f.kind, f.sig["pred"], f.sig["cls"])
+        fclasses[key] = fclasses.get(key, 0) + 1
     samples = [c["goal"] for c in allc[:2]] + [c["goal"] for c in allc[len(allc) // 2: len(allc) // 2 + 2]] + [c["goal"] for c in allc[-3:]]
     return {
         "evaluations": len(allc),
@@ -583,6 +631,9 @@ def run(ctx):
         "modes_hit": modes,
         "error_kinds_hit": err_kinds,
         "unending_searches_probed": hangs,
+        "cases_run_twice": reruns,
+        "finding_classes": fclasses,
+        "cases_in_recorded_defect_classes_meeting_the_spec": fixed_seen,
         "exhaustive": False,
         "findings": findings,
     }
